@@ -167,6 +167,14 @@ func (r *storeRun) hook(point string, ctx []interface{}) {
 func (r *storeRun) faultHook(point string, ctx []interface{}) error {
 	if point == "store.save.encode" && r.failNext {
 		r.failNext = false
+		// the disk filled up in the middle of the write: the temp file is incomplete
+		if len(ctx) > 1 {
+			if tmp, ok := ctx[1].(string); ok {
+				if fi, err := os.Stat(tmp); err == nil {
+					_ = os.Truncate(tmp, fi.Size()/2)
+				}
+			}
+		}
 		return fmt.Errorf("simulated ENOSPC")
 	}
 	return nil
@@ -287,10 +295,10 @@ func (r *storeRun) execute() error {
 		raceOn()
 		r.core.drain()
 		for _, p := range r.core.parkedQ {
-			if p.tag == "" {
+			if r.core.tags[p] == "" {
 				_, _, _, gid, _, _ := p.rd()
 				if a := gidActor[gid]; a != nil {
-					p.tag = fmt.Sprintf("@%s%d", a.kind, a.idx)
+					r.core.tags[p] = fmt.Sprintf("@%s%d", a.kind, a.idx)
 				}
 			}
 		}
@@ -314,7 +322,7 @@ func (r *storeRun) execute() error {
 		}
 		var cs []ch
 		for _, p := range r.core.parkedQ {
-			cs = append(cs, ch{kind: "release", rec: p, name: p.final(), w: r.sc.Cfg.WParked})
+			cs = append(cs, ch{kind: "release", rec: p, name: r.core.final(p), w: r.sc.Cfg.WParked})
 		}
 		for ai, a := range actors {
 			if !a.busy && a.next < a.total {
